@@ -269,6 +269,9 @@ func (f *Frame) loadFactsB(v T, t types.Type, bound T) {
 		f.enc.factAbout(v, Le(v, bound))
 	case *types.Slice:
 		f.enc.factAbout(v, Le(SPtr(v), bound))
+	case *types.Interface:
+		// a reference held in an interface value denotes an existing object
+		f.enc.factAbout(v, Implies(App(SBool, "ptrlike", App(SInt, "tag", v)), And(Le(Zero, App(SInt, "pl_Int", v)), Le(App(SInt, "pl_Int", v), bound))))
 	}
 }
 
